@@ -879,3 +879,15 @@ Proof.
   apply firstn_overwrite_before; [|exact Hl].
   split; [exact Hk|]. destruct (last_op s =? c_SFM_WRITE); [exact Hc|]. unfold codec_seek, set_cur. cbn [cur]. exact Hc.
 Qed.
+
+(** C11: rewriting frames written earlier changes neither the frame count nor the length of the data region *)
+Theorem overwrite_keeps_frames n xs s :
+  wf s -> mode s <> c_SFM_READ -> 0 < n -> len xs = n * ch s -> wcur s + n <= frames s ->
+  frames (fst (api_write true n (n * ch s) xs s)) = frames s /\
+  len (data (fst (api_write true n (n * ch s) xs s))) = len (data s).
+Proof.
+  intros Hwf Hm Hn Hxs Hle.
+  pose proof (write_effect n xs s Hwf Hm Hn Hxs) as H.
+  destruct (api_write true n (n * ch s) xs s) as [s1 w]. cbn [fst].
+  destruct H as (_ & H1 & _). destruct (H1 Hle) as (Hf & Hl & _). split; assumption.
+Qed.
